@@ -24,6 +24,13 @@ Proof.
   rewrite forallb_forall in E. apply N.eqb_eq, E. apply in_map_iff. exists (N.to_nat r). split; [apply N2Nat.id|apply in_seq; lia].
 Qed.
 
+(* the protocol constants regenerated from region/constants.rs are those of LoRaWAN 1.0.x / RP002: RECEIVE_DELAY1 1 s, JOIN_ACCEPT_DELAY1/2
+   5 s / 6 s (and MAX_FCNT_GAP 16384, ADR_ACK_LIMIT 64, ADR_ACK_DELAY 32, used by C05 / C12) *)
+Theorem C10_protocol_constants :
+  c_receive_delay1 = 1000 /\ c_join_accept_delay1 = 5000 /\ c_join_accept_delay2 = 6000 /\
+  c_max_fcnt_gap = 16384 /\ c_adr_ack_limit = 64 /\ c_adr_ack_delay = 32.
+Proof. repeat split; reflexivity. Qed.
+
 Section C10.
   Theorem C10_no_panic_in_window_config : forall m freq dr tx_dr,
     rg_id (m_region m) < 9 -> tx_dr < 16 -> cf_rx1_dr_offset (m_cfg m) < 8 ->
